@@ -361,9 +361,9 @@ def enum_deathwatch(meta, tier, sel):
 def enum_tracers(meta, tier, sel):
     quick = tier == 'quick'
     slen = 5 if quick else 6
-    alpha = ['push', 'pushs', 'pop', 'val', 'void', 'std', 'int', 'nest', 'rej']
+    alpha = ['push', 'pushs', 'pushr', 'pop', 'val', 'void', 'std', 'int', 'nest', 'rej']
     for st in strings(alpha, slen, exact=True):
-        if not any(x in ('push', 'pushs') for x in st):
+        if not any(x in ('push', 'pushs', 'pushr') for x in st):
             continue
         if sel.skip(): continue
         c = Ctx(meta)
@@ -387,9 +387,9 @@ def enum_tracers(meta, tier, sel):
         tr = []
         ok = True
         for sym in st:
-            if sym in ('push', 'pushs'):
+            if sym in ('push', 'pushs', 'pushr'):
                 if len(tr) >= 3: ok = False; break
-                t = c.id(); ops.append(('tr', t, 1 if sym == 'pushs' else 0)); tr.append(t)
+                t = c.id(); ops.append(('tr', t, {'push': 0, 'pushs': 1, 'pushr': 2}[sym])); tr.append(t)
             elif sym == 'pop':
                 if not tr: ok = False; break
                 ops.append(('rmtr', tr.pop()))
@@ -414,15 +414,15 @@ def enum_tracers(meta, tier, sel):
 # ---- C07: forbid stacks ----------------------------------------------------------------------------------------
 def enum_forbid(meta, tier, sel):
     quick = tier == 'quick'
-    kinds = ['allow', 'forbid', 'req', 't0', 'forbidv']
+    kinds = ['allow', 'forbid', 'req', 't0']
     masks = [0b0001, 0b0011, 0b0110, 0b1111] if not quick else [0b0001, 0b0011, 0b0110]
     order_variants = ['lifo', 'fifo']
     slen = 3
-    core_of = {'allow': 'f_allow', 'forbid': 'f_forbid', 'req': 'f_rt', 't0': 'f_t0', 'forbidv': 'f_forbid_v_w1'}
+    core_of = {'allow': 'f_allow', 'forbid': 'f_forbid', 'req': 'f_rt', 't0': 'f_t0'}
     for ks in itertools.product(kinds, repeat=3):
-        if not any(k in ('forbid', 't0', 'forbidv') for k in ks):
+        if not any(k in ('forbid', 't0') for k in ks):
             continue
-        if ks.count('allow') > 2 or ks.count('t0') > 2 or ks.count('forbidv') > 1 or (quick and 'forbidv' in ks and 't0' in ks):
+        if ks.count('allow') > 2 or ks.count('t0') > 2:
             continue
         for ms in itertools.product(masks, repeat=3):
             for calls in itertools.product(range(3), repeat=slen):
@@ -438,8 +438,6 @@ def enum_forbid(meta, tier, sel):
                             p = dict(mask=mk, val=0)
                             if k == 'req':
                                 p.update(lo=1, hi=2)
-                            if k == 'forbidv':
-                                p.update(w0=15)
                             ops.append(('exp', e, sh, slot, o, p)); exps.append(e)
                     except IndexError:
                         continue
